@@ -376,10 +376,10 @@ func (s *c16src) materialize() {
 }
 
 type c16case struct {
-	srcs     []*c16src
-	diffBase bool
-	hasBase  bool
-	remote   bool
+	srcs       []*c16src
+	diffBase   bool
+	hasBase    bool
+	remote     bool
 	saveENOSPC bool
 }
 
@@ -696,10 +696,22 @@ func runC16(x *xctx) *violation {
 		if only.err != nil {
 			return violf("failure-dependent", "the run with only the good sources fails: %v", only.err)
 		}
-		if !bytes.Equal(only.out, got.out) {
-			pa, _ := profile.Parse(bytes.NewReader(only.out))
-			pb, _ := profile.Parse(bytes.NewReader(got.out))
-			return violf("failure-dependent", "report differs from the run that lists only the good sources:\n%v\n--- vs ---\n%v", pa, pb)
+		// Compared as canonical (stack, labels) -> values maps, not as bytes: the
+		// 128-source chunking depends on the length of the source list, and a
+		// stack whose values cancel inside one chunk re-appears at a different
+		// position, which changes the sample order but not the report's content.
+		pa, errA := profile.Parse(bytes.NewReader(only.out))
+		pb, errB := profile.Parse(bytes.NewReader(got.out))
+		if errA != nil || errB != nil {
+			return violf("bad-output", "report does not parse: %v %v", errA, errB)
+		}
+		ma, _ := canonProfile(pa)
+		mb, _ := canonProfile(pb)
+		if ma.String() != mb.String() {
+			return violf("failure-dependent", "report {%s} differs from the run that lists only the good sources {%s}", mb, ma)
+		}
+		if bytes.Equal(only.out, got.out) {
+			x.probe("bytes_equal_to_only_good_run")
 		}
 	}
 	// probes and measures
